@@ -1,7 +1,7 @@
 """C17 -- see DESIGN.md section 5.  Deductive targets are added below the bounded import."""
 PROP = "C17"
 LEVEL = 'other'
-EXPLANATION = ('Deductive: HelpResolver.create_resolved_command restores the lenient-parsing setting of the resolved command on every exit, normal or exceptional; every style factory (BorderStyle.none/ascii/solid, TableStyle.borderless/compact/ascii/solid) returns a fresh object graph (style, border style, alignment list) with exactly the documented field values, stores in the prototype cache only an object it created, never hands a prototype out and changes no field of an existing one, and the canonical-prototype class invariant is preserved (class variables as heap state, copy.copy as field-wise shallow copy; an AST obligation shows that only the factories assign the cache); a package-wide AST obligation shows that no module holds module- or class-level state that its code mutates, except those prototypes and the trace snippet cache.  Bounded: run histories on one application vs fresh ones, style construction orders, double renders, trace cache across I/O kinds.')
+EXPLANATION = ('Deductive: HelpResolver.create_resolved_command restores the lenient-parsing setting of the resolved command on every exit, normal or exceptional; every style factory (BorderStyle.none/ascii/solid, TableStyle.borderless/compact/ascii/solid) returns a fresh object graph (style, border style, alignment list) with exactly the documented field values, stores in the prototype cache only an object it created, never hands a prototype out and changes no field of an existing one, and the canonical-prototype class invariant is preserved (class variables as heap state, copy.copy as field-wise shallow copy; an AST obligation shows that only the factories assign the cache); a package-wide AST obligation shows that no module holds module- or class-level state that its code mutates, except those prototypes and the trace snippet cache; three more AST frame obligations show that ConsoleApplication, Command and Config are written only while they are built (constructor, set_ / add_ / enable_ / disable_ methods): run(), resolve_command(), handle(), parse() and every getter store nothing into the receiver or an object reached from it.  Bounded: run histories on one application vs fresh ones, style construction orders, double renders, trace cache across I/O kinds.')
 LEVEL_NOTE = ('assumes: Command.parse does not modify the configuration; the class invariant of the prototype cache is a precondition of the factories, justified by encapsulation (fresh results + frame + the structural obligation), `cls` is taken to be the declaring class (no subclass shadows the cache); trace caches, double renders and end-to-end histories are bounded only')
 from . import resolver_contracts as rc
 from . import tablestyle_contracts as tsc
